@@ -248,14 +248,15 @@ Qed.
 
 Lemma hstep_reachable s e : exists es, hstep s e = frun s es.
 Proof.
-  destruct e as [t c|t|t l|h|d]; simpl;
+  destruct e as [t c|t|t l|h|d]; unfold hstep;
     [exists [FSpawn t c]; reflexivity | apply run_thread_reachable | apply run_thread_reachable
      | exists [FAge h]; reflexivity | exists [FTick d]; reflexivity].
 Qed.
 
 Theorem hrun_reachable : forall hs s, exists es, hrun s hs = frun s es.
 Proof.
-  induction hs as [|e hs IH]; intro s; [exists []; reflexivity|]. simpl.
+  induction hs as [|e hs IH]; intro s; [exists []; reflexivity|].
+  change (hrun s (e :: hs)) with (hrun (hstep s e) hs).
   destruct (hstep_reachable s e) as [es1 E1]. destruct (IH (hstep s e)) as [es2 E2].
   exists (es1 ++ es2). rewrite E2, E1. unfold frun. rewrite fold_left_app. reflexivity.
 Qed.
@@ -315,7 +316,7 @@ Lemma pc_ok_mono es e s p : pc_ok es s p -> pc_ok (es ++ [e]) s p.
 Proof.
   destruct p; simpl; auto using call_ok_mono, fannounced_mono, fconfirmed_mono, fdiscovered_mono;
     try (intros [H1 H2]; split; auto using fannounced_mono, fconfirmed_mono).
-  intros H E. apply fdiscovered_mono, H, E.
+  all: try (intros H E; apply fdiscovered_mono, H, E).
 Qed.
 
 Lemma sinv_mono es e s : sinv es s -> sinv (es ++ [e]) s.
@@ -444,7 +445,7 @@ Proof.
   intros I K. pose proof I as (A & B & C).
   destruct p; cbn [tstep].
   - (* PStart *) split; [exact I|]. split; [|apply stable_refl]. cbn [snd fst tres_ok]. destruct K as [t K].
-    destruct c; simpl; try exact I0; try exact Logic.I.
+    destruct c; simpl; try exact Logic.I.
     + exists t, height. exact K.
     + exists t, height, order. left. exact K.
     + exists t, height, order. right. exact K.
@@ -611,3 +612,13 @@ Proof.
   intros guard enable self ttl es x H. destruct (frun_finv guard enable self ttl es) as [(A & _) _].
   apply A, has_member, H.
 Qed.
+
+(** ** the two models on a whole-call history: every call run alone, start to finish, gives what [Peers.Manager] gives
+    (checked here on the non-vacuity history; the harness re-checks it on every sequential case of every run) *)
+Example atomic_agrees_example :
+  let es := ex_mhistory ++ [MPeer 3 8 []; MPeer 3 8 []; MPeer 0 6 []; MPeer 0 6 []] in
+  mobs_eqb (mobs_of 5 4 (abs (fs_sh (hrun (finit true true 9 10) (atomic_schedule 0 es)))))
+           (mobs_of 5 4 (mrun (new_mgr true 9 10) es)) = true /\
+  map (thread_out (hrun (finit true true 9 10) (atomic_schedule 0 es))) [7; 8; 9; 10]%nat =
+    [Some (OP (PRes 1 SDiscovered)); Some (OP (PRes 3 SDiscovered)); Some (OP (PRes 1 SShrexSub)); Some (OP (PRes 1 SShrexSub))].
+Proof. vm_compute. split; reflexivity. Qed.
